@@ -57,8 +57,20 @@ UsersEq   == {"u", "\"a=b\"", "\"=\"", "\"ops= team\"", "\"ops='x'\"", "\"a=\\\"
               "\"a='\"", "\"= b\"", "\"a= 'x' b\"", "\"a = b = c\"",
               \* an escaped quote inside the name, followed (still inside the name) by '=' and something value-like
               "\"x\\\" = y\"", "\"x\\\"='y'\"", "\"a\\\\\"", "\"\\\" = 'b'\""}
+\* characters whose lower-case form has another UTF-8 length (a lower-cased copy of the text has other offsets);
+\* non-ASCII characters travel as placeholders that the driver substitutes (TLC states may be spilled to disk)
+UsersCase == {"\"{IDOT}brahim\"", "\"{KELVIN}\"", "\"{ASTROKE}{IDOT}{IDOT}\""}
+\* SPECULATIVE syntax: spellings the present parser rejects.  They are judged only if the parser under check
+\* accepts them (an extension of the accepted language must not open a leak): characters other tools treat as
+\* white space, and the SQL way of writing a quote inside a quoted text
+GapsSpec  == {"{NBSP}", "{VT}", "{FF}", "{NEL}", "{LS}", "{IDSP}", "{EMSP}", "{ZWSP}", "{BOM}"}
+GapsSpecFew == {" ", "{NBSP}", "{VT}", "{LS}"}
+GapsSpecSp == GapsSpec \cup {" "}
+GapsSpecSp0 == GapsSpec \cup {" ", ""}
+UsersSpec == {"u", "\"a\"\"b\"", "\"\"\"a\""}
+PiecesSpec == {"M", "qq", "sq"}
 UsersAll  == {"u", "bob_1", "\"u\"", "\"with password\"", "\"pass'word\"", "\"a b\"", "\"a\\\"b\"",
-              "\"password for\"", "\"with password x\"", "\"\""} \cup UsersEq
+              "\"password for\"", "\"with password x\"", "\"\""} \cup UsersEq \cup UsersCase
 UsersSome == {"u", "\"a=b\"", "\"with password\"", "\"pass'word\""}
 
 CasesAll == {"u", "l", "m"}
@@ -73,7 +85,8 @@ PieceTab == [M    |-> [t |-> "",       v |-> ""],
              nl   |-> [t |-> "\\n",    v |-> "\n"],
              semi |-> [t |-> ";",      v |-> ";"],
              dash |-> [t |-> "--",     v |-> "--"],
-             cmt  |-> [t |-> "/*",     v |-> "/*"]]
+             cmt  |-> [t |-> "/*",     v |-> "/*"],
+             qq   |-> [t |-> "''",     v |-> "'"]]
 PiecesAll  == {"M", "sp", "sq", "dq", "bs", "eq", "nl", "semi", "dash", "cmt"}
 PiecesM    == {"M"}
 PiecesSafe == {"M", "sq", "bs", "eq", "nl", "semi", "dash", "cmt"}     \* no whitespace, no double quote
